@@ -335,7 +335,7 @@ pub fn compile_cardano_publish_directive(
         (adhoc.data.get("version"), adhoc.data.get("script"))
     {
         // Create a synthetic adhoc directive that compile_adhoc_script can handle
-        let mut script_data = std::collections::HashMap::new();
+        let mut script_data = std::collections::BTreeMap::new();
         script_data.insert("version".to_string(), version_expr.clone());
         script_data.insert("script".to_string(), script_expr.clone());
 
